@@ -509,9 +509,18 @@ type View struct {
 }
 
 // View builds a fresh, fault-free view of the durable state.
-func (a *Authority) View() (*View, error) {
-	saved := a.Plan
-	_ = saved
+func (a *Authority) View() (*View, error) { return a.view(false) }
+
+// DurableView is what a newly started process sees of the durable state: fresh key-manager and
+// certificate-authority objects even when the authority models a long-lived process (whose own objects
+// may answer from what they remember rather than from what the store holds).
+func (a *Authority) DurableView() (*View, error) { return a.view(true) }
+
+func (a *Authority) view(fresh bool) (*View, error) {
+	if fresh && a.Persist {
+		a.Persist = false
+		defer func() { a.Persist = true }()
+	}
 	p, err := a.newProcess(false)
 	if err != nil {
 		return nil, err
